@@ -79,13 +79,32 @@ func (c *Ctx) registerFn() *ssa.Function {
 			continue
 		}
 		sig := f.Signature
-		if sig.Params().Len() != 1 || sig.Results().Len() != 1 {
+		if sig.Params().Len() != 1 || sig.Results().Len() < 1 || sig.Results().Len() > 2 {
 			continue
 		}
 		if b, ok := sig.Params().At(0).Type().Underlying().(*types.Basic); !ok || b.Kind() != types.String {
 			continue
 		}
-		if b, ok := sig.Results().At(0).Type().Underlying().(*types.Basic); !ok || b.Kind() != types.String {
+		// the result is the name, or the import entry that holds it
+		switch rt := sig.Results().At(0).Type().Underlying().(type) {
+		case *types.Basic:
+			if rt.Kind() != types.String {
+				continue
+			}
+		case *types.Struct:
+			hasStr := false
+			for i := 0; i < rt.NumFields(); i++ {
+				if b, ok := rt.Field(i).Type().Underlying().(*types.Basic); ok && b.Kind() == types.String {
+					hasStr = true
+				}
+			}
+			if !hasStr {
+				continue
+			}
+		default:
+			continue
+		}
+		if isExportedName(f.Name()) {
 			continue
 		}
 		// updates a map field of File itself, or through a helper it calls
@@ -218,6 +237,9 @@ func ruleRenderStores(c *Ctx) []Obligation {
 			total++
 			if ef.Kind == "mapupdate" && ef.Field == "jen.File."+c.ff("imports") && ef.Via == fname(reg) {
 				continue
+			}
+			if ef.Kind == "mapupdate" && ef.Field == "jen.File."+c.ff("imports") && c.viaOnlyFromRegister(e, ef.Via) {
+				continue // a helper of the registration function that nothing else reachable from here calls
 			}
 			if ef.Kind == "extmut" && ef.Root.Kind == "param" && isWriterParam(e, ef.Root.Idx) {
 				continue // handing the writer on to an external writer routine
@@ -1379,4 +1401,35 @@ func (c *Ctx) hintSetterPaths(o *obs) {
 		t.require(key)
 		t.flush()
 	}
+}
+
+// viaOnlyFromRegister: the function named via is a helper of the registration function (called by it,
+// at most two levels down), and among everything reachable from entry only the registration
+// function and those helpers call it.
+func (c *Ctx) viaOnlyFromRegister(entry *ssa.Function, via string) bool {
+	reg := c.registerFn()
+	helpers := map[*ssa.Function]bool{reg: true}
+	var target *ssa.Function
+	for _, h := range c.calleesWithin(reg, 2) {
+		helpers[h] = true
+		if fname(h) == via {
+			target = h
+		}
+	}
+	if target == nil {
+		return false
+	}
+	for h := range c.CG().Reach(entry) {
+		if helpers[h] {
+			continue
+		}
+		for _, b := range h.Blocks {
+			for _, in := range b.Instrs {
+				if ci, ok := in.(ssa.CallInstruction); ok && ci.Common().StaticCallee() == target {
+					return false
+				}
+			}
+		}
+	}
+	return true
 }
